@@ -174,7 +174,7 @@ func (r *atRun) checkC09Race(o *episodeObs) {
 	}
 	var fws []fw
 	for _, e := range j {
-		if e.Err != "" || !foreignSQL[e.SQL] || !r.isHarnessConn(e.Conn) {
+		if e.Err != "" || !foreignSQL[e.SQL] {
 			continue
 		}
 		for _, wr := range appWrites(e.Writes) {
@@ -198,25 +198,22 @@ func (r *atRun) checkC09Race(o *episodeObs) {
 		if !isP2 {
 			continue
 		}
-		// first read of each application table inside the rollback transaction
+		// every undo item reads the current rows of its table and then writes them:
+		// the read that covers a compensating statement is the last one on that
+		// table before it
 		checked := map[string]uint64{}
 		for _, e := range t.entries {
-			if e.Kind != "QUERY" || e.Err != "" || e.Class == "select-for-update-undo" {
+			if e.Err != "" {
 				continue
 			}
-			up := strings.ToUpper(e.SQL)
-			if i := strings.Index(up, " FROM "); i >= 0 {
-				rest := strings.Fields(e.SQL[i+6:])
-				if len(rest) > 0 {
-					tn := strings.ToLower(strings.Trim(rest[0], "`"))
-					if _, ok := checked[tn]; !ok {
-						checked[tn] = e.Seq
+			if e.Kind == "QUERY" && e.Class != "select-for-update-undo" {
+				up := strings.ToUpper(e.SQL)
+				if i := strings.Index(up, " FROM "); i >= 0 {
+					rest := strings.Fields(e.SQL[i+6:])
+					if len(rest) > 0 {
+						checked[strings.ToLower(strings.Trim(rest[0], "`"))] = e.Seq
 					}
 				}
-			}
-		}
-		for _, e := range t.entries {
-			if e.Err != "" {
 				continue
 			}
 			for _, cw := range appWrites(e.StmtWrites) {
@@ -468,7 +465,7 @@ func (r *atRun) checkC09(o *episodeObs) {
 		// row is in the client's images (and under its global lock) although the
 		// database recorded no write; whether that is "a row it wrote" is not ours
 		// to say, so the branch is not judged
-		imageKeys := map[string]bool{}
+		imageKeys := map[string]int{} // number of undo items whose images hold the row
 		for _, fl := range r.flush {
 			if fl.Xid != o.xid || int64(fl.BranchID) != b.ID {
 				continue
@@ -478,18 +475,23 @@ func (r *atRun) checkC09(o *episodeObs) {
 				if tab == nil {
 					continue
 				}
+				inItem := map[string]bool{}
 				for _, img := range []*types.RecordImage{it.BeforeImage, it.AfterImage} {
 					if img == nil {
 						continue
 					}
 					for _, row := range img.Rows {
-						imageKeys[strings.ToLower(it.TableName)+"|"+imagePK(tab, row)] = true
+						inItem[strings.ToLower(it.TableName)+"|"+imagePK(tab, row)] = true
 					}
+				}
+				for k := range inItem {
+					imageKeys[k]++
 				}
 			}
 		}
-		changedKeys := map[string]bool{}
+		changedKeys := map[string]int{} // number of statements (and row kinds) that changed the row
 		for _, it := range items {
+			seenIt := map[string]bool{}
 			for _, wr := range it.rows {
 				tname := wr.Table[strings.LastIndex(wr.Table, ".")+1:]
 				tab := w.Srv.Table(atSchema, tname)
@@ -498,7 +500,10 @@ func (r *atRun) checkC09(o *episodeObs) {
 					row = wr.Before
 				}
 				if tab != nil {
-					changedKeys[strings.ToLower(tname)+"|"+pkTextOfRow(tab, row)] = true
+					if k := strings.ToLower(tname) + "|" + pkTextOfRow(tab, row); !seenIt[k] {
+						seenIt[k] = true
+						changedKeys[k]++
+					}
 				}
 			}
 		}
@@ -523,7 +528,9 @@ func (r *atRun) checkC09(o *episodeObs) {
 					continue
 				}
 				key := strings.ToLower(tname) + "|" + pkTextOfRow(tab, row)
-				if imageKeys[key] && !changedKeys[key] {
+				// in more undo items than statements changed it: some statement
+				// matched the row without changing it
+				if imageKeys[key] > changedKeys[key] {
 					outside = true
 				}
 			}
